@@ -462,7 +462,7 @@ def r_clone_collections(ck: Checker) -> None:
     if e_ <= d_ or d_ & {"Sequence", "t.Sequence", "abc.Sequence", "Iterable", "t.Iterable"}:
         ck.holds("R-LEG-CLONE", du, du.node, what, enumeration=sorted(e_), duplicate=sorted(d_))
     else:
-        ck.violation("R-LEG-CLONE", du, du.node, what, construct=f"duplicate copies child collections of type {sorted(d_)} only, the enumeration also walks into {sorted(e_ - d_)}: such a "
+        ck.violation("R-LEG-CLONE", du, du.node, what, positive=True, construct=f"duplicate copies child collections of type {sorted(d_)} only, the enumeration also walks into {sorted(e_ - d_)}: such a "
                      "collection (and the nodes in it) is shared between the live tree and the detached clone a transformer works on")
 
 
